@@ -32,16 +32,43 @@ def build_replay_crate(repo, scratch):
     cargo = open(os.path.join(dst, 'Cargo.toml')).read().replace('@REPO@', repo)
     open(os.path.join(dst, 'Cargo.toml'), 'w').write(cargo)
     env = dict(os.environ, CARGO_NET_OFFLINE='true', CARGO_TARGET_DIR=os.path.join(scratch, 'replay-target'))
-    p = subprocess.run(['cargo', 'build', '--offline', '--quiet'], cwd=dst, env=env, stdout=subprocess.PIPE, stderr=subprocess.STDOUT, text=True)
+    p = subprocess.run(['cargo', 'build', '--offline', '--quiet', '--release'], cwd=dst, env=env, stdout=subprocess.PIPE, stderr=subprocess.STDOUT, text=True)
     if p.returncode != 0:
         return None
-    return os.path.join(scratch, 'replay-target', 'debug', 'replay')
+    return os.path.join(scratch, 'replay-target', 'release', 'replay')
+
+
+def finding_witnesses(pid):
+    p = os.path.join(VERIF, 'known_findings.json')
+    names = []
+    if os.path.exists(p):
+        for f in json.load(open(p)).get('findings', []):
+            if f.get('property') == pid:
+                names += f.get('witnesses', [])
+    return sorted(set(names))
+
+
+def run_witnesses(exe, pid):
+    """re-execute the native witnesses of the (repaired) defects recorded for this property; returns [(name, message)] of those that fail"""
+    names = finding_witnesses(pid)
+    if not names:
+        return [], 0
+    p = subprocess.run([exe, 'witness'] + names, stdout=subprocess.PIPE, stderr=subprocess.PIPE, text=True, timeout=300)
+    bad = []
+    for l in p.stdout.split('\n'):
+        if ': FAILS: ' in l:
+            n, m = l.split(': FAILS: ', 1)
+            bad.append((n, m))
+    return bad, len(names)
 
 
 def witness_search(pid, names, repo, scratch, say):
     exe = build_replay_crate(repo, scratch)
     if not exe:
         return None
+    bad, _n = run_witnesses(exe, pid)
+    if bad:
+        return {'search': 'defect-witness', 'name': bad[0][0], 'observed': bad[0][1], 'params': []}
     try:
         p = subprocess.run([exe, 'search', pid] + sorted(names), stdout=subprocess.PIPE, stderr=subprocess.PIPE, text=True, timeout=600)
     except subprocess.TimeoutExpired:
@@ -94,6 +121,35 @@ def replay(pid, path, repo, scratch, say):
     if not exe:
         print('replay crate did not build')
         return 2
+    if w.get('search') == 'defect-witness':
+        p = subprocess.run([exe, 'witness', w['name']], stdout=subprocess.PIPE, stderr=subprocess.STDOUT, text=True)
+        print(p.stdout)
+        return 1 if 'FAILS' in p.stdout else 0
     p = subprocess.run([exe, 'replay', json.dumps(w)], stdout=subprocess.PIPE, stderr=subprocess.STDOUT, text=True)
     print(p.stdout)
     return 1 if 'REPRODUCED' in p.stdout else 0
+
+
+def bounded_standin(pid, msg, tool, repo, scratch, say):
+    """Verus rejected the changed code as outside its subset.  Bounded stand-in: execute the real functions over the boundary
+    lattices of replay/src/search.rs (and the recorded defect witnesses).  Only a concrete failing input yields a replay file."""
+    w = None
+    try:
+        w = witness_search(pid, [], repo, scratch, say)
+    except Exception as e:  # noqa
+        say(pid, 'bounded stand-in did not run: %s' % e)
+    if not w:
+        say(pid, 'bounded stand-in (native lattice search) found no failing input')
+        return None
+    d = _replay_dir()
+    n = 0
+    while os.path.exists(os.path.join(d, '%s-%d.json' % (pid, n))):
+        n += 1
+    path = os.path.join(d, '%s-%d.json' % (pid, n))
+    rec = {'property': pid, 'created': time.strftime('%Y-%m-%dT%H:%M:%S'), 'level': 'bounded stand-in: Verus could not process the changed code',
+           'failed_obligations': [{'obligation': 'bounded native search', 'back_end': 'native execution of /repo over the lattices of replay/src/search.rs',
+                                   'message': msg, 'diagnostic': '\n'.join(r.get('rendered', '') for r in tool[:3])}],
+           'witness': w, 'found_input': True}
+    json.dump(rec, open(path, 'w'), indent=1)
+    say(pid, 'bounded stand-in found a concrete failing input: %s' % json.dumps(w)[:300])
+    return path
